@@ -135,7 +135,7 @@ def gen_cases(tier, rnd, prop, budget):
         if prop in ("C03", "C08") and i % 4 == 3:
             # games of ANY class: the computers are defined on every table with minimal information
             return (G.arbitrary_game(n, rnd), "arb") if i % 8 == 3 else (G.undervalued_game(n, rnd), "undervalued")
-        kind = ["int", "dyadic", "int", "big"][i % 4]
+        kind = ["int", "dyadic", "offset", "big", "int", "offset"][i % 6]
         return G.sa_game(n, rnd, kind=kind, neg_singletons=(i % 3 == 1),
                          v0=Fraction(-(i % 2) * rnd.randint(0, 3))), f"sa-{kind}"
     # n = 3: all K
@@ -169,6 +169,64 @@ def gen_cases(tier, rnd, prop, budget):
                 return
             v, tag = game(n, i)
             yield n, v, G.knowledge_random(n, rnd), tag + ":randK"
+
+
+def large_n_oracles(prop, tier, rnd, res, budget):
+    """n = 9 (thorough: 9, 10): coalition ids above 255. The model driver is not run here (its relation table is
+    O(8^n)); the property's own oracle is applied to the real computers, which is what finds a failing input."""
+    for n in ((9,) if tier == "quick" else (9, 10)):
+        N = 2 ** n
+        for gi in range(2 if tier == "quick" else 6):
+            if budget.left() < 5:
+                res.notes.append("large-n oracles: budget exhausted")
+                return
+            samg = gi % 2 == 0 or prop == "C04"
+            v = G.sam_game(n, rnd) if samg else G.sa_game(n, rnd, kind="int", neg_singletons=True)
+            K = G.knowledge_random(n, rnd, p=0.05)
+            comps = ["sam:1"] if prop == "C04" else (["sa", "sac"] if prop in ("C01", "C02", "C03") else ["sac", "sam:1" if samg else "sac"])
+            outs = {}
+            for comp in dict.fromkeys(comps):
+                o = real_bounds(n, v, K, comp)
+                res.count(f"large-n:{n}:{comp}")
+                res.evaluations += 1
+                case = {"n": n, "v": [rs(x) for x in v], "K": K, "computer": comp, "tag": "large-n"}
+                if isinstance(o, str):
+                    res.violation(f"{comp} raised {o} on a {n}-player game with minimal information known", case, key=f"bounds:large-n:{comp}:raises")
+                    continue
+                outs[comp] = o
+                Kn, L, U = o
+                if prop in ("C01", "C04"):
+                    for c in range(N):
+                        if not (L[c] <= v[c] <= U[c]):
+                            res.violation(f"true value outside [{rs(L[c])}, {rs(U[c])}] at coalition {c} (v={rs(v[c])}), {n} players",
+                                          {**case, "coalition": c}, key="bounds:large-n:unsound")
+                            break
+                if prop in ("C07", "C08", "C01"):
+                    # one reveal step on the SAME object (stale rows from the first computation) vs a fresh object
+                    from incomplete_cooperative.coalitions import Coalition
+                    from incomplete_cooperative.game import IncompleteCooperativeGame
+                    g = IncompleteCooperativeGame(n, computer(comp))
+                    for k in K:
+                        g.set_value(float(v[k]), Coalition(k))
+                    g.compute_bounds()
+                    unknown = [c for c in range(N) if c not in set(K)]
+                    c = rnd.choice(unknown)
+                    g.reveal_value(float(v[c]), Coalition(c))
+                    g.compute_bounds()
+                    L2 = [frac(x) for x in g.get_lower_bounds()]
+                    U2 = [frac(x) for x in g.get_upper_bounds()]
+                    if prop == "C07" and any(L2[x] < L[x] or U2[x] > U[x] for x in range(N)):
+                        res.violation(f"revealing coalition {c} widened an interval ({comp}, {n} players)", {**case, "reveal": c},
+                                      key="bounds:large-n:widening")
+                    fresh = real_bounds(n, v, sorted(set(K) | {c}), comp)
+                    if prop in ("C08", "C01") and (isinstance(fresh, str) or fresh[1] != L2 or fresh[2] != U2):
+                        res.violation(f"bounds after reveal+compute on a used object differ from a fresh object ({comp}, {n} players)",
+                                      {**case, "reveal": c}, key="bounds:large-n:history-dependence")
+            if prop == "C03" and "sa" in outs and "sac" in outs and (outs["sa"][1] != outs["sac"][1] or outs["sa"][2] != outs["sac"][2]):
+                res.violation(f"reference and cached computers disagree on a {n}-player game", {"n": n, "v": [rs(x) for x in v], "K": K},
+                              key="bounds:large-n:sa-vs-sac")
+            if prop == "C02" and "sac" in outs and n <= 9:
+                pass    # the brute-force partition oracle is exponential; tightness at n ≥ 9 is covered through C03 (sa = sac) only
 
 
 def run(tier: str, budget: Budget, rnd, prop: str) -> StreamResult:
@@ -280,6 +338,8 @@ def run(tier: str, budget: Budget, rnd, prop: str) -> StreamResult:
                     if bad:
                         res.violation(bad, {**case, "coalition": c})
                         break
+    # ---------------- large player counts: property oracles on the real code only (no model tie) ---------
+    large_n_oracles(prop, tier, rnd, res, budget)
     # ---------------- C07: every lattice edge whose two ends were computed -----------------------
     if prop == "C07":
         for (gid, comp), table in cache.items():
